@@ -24,12 +24,14 @@ class Crashed(Exception):
 
 
 class RefExecutor(object):
-    def __init__(self, schema, doc, op, variables, world, introspection=None):
+    def __init__(self, schema, doc, op, variables, world, introspection=None, root=None):
         self.s, self.doc, self.op, self.vars, self.world = schema, doc, op, variables, world
         self.errors = []          # (path tuple, kind)
         self.calls = []           # (type, field, oid, kwargs) in model order (depth-first, document order)
         self.crashes = []         # paths whose resolver crashes
         self.introspection = introspection
+        self.root = root
+        self.error_messages = []  # messages of the world's resolver errors, in model order
         self.top_level_order = []
         self.visited = []         # response paths of every field the algorithm resolves
 
@@ -82,7 +84,7 @@ class RefExecutor(object):
     # -- execution ------------------------------------------------------------
     def run(self):
         root_type = dict(self.s.roots())[self.op.kind]
-        root = self.world.root(root_type)
+        root = self.root if self.root is not None else self.world.root(root_type)
         grouped = self.collect(root_type, self.op.selection)
         data = self.execute_selection(root_type, root, grouped, ())
         return data, self.errors
@@ -110,6 +112,7 @@ class RefExecutor(object):
         out = self.world.outcome(object_type, f.name, obj.oid, salt_of(kwargs))
         if out[0] == "error":
             self.errors.append((path, "resolver"))
+            self.error_messages.append(out[1])
             return None
         if out[0] == "crash":
             self.crashes.append(path)
@@ -140,7 +143,7 @@ class RefExecutor(object):
         return self.execute_selection(runtime, v, grouped, path)
 
 
-def reference_result(schema, doc, op, provided_variables, world):
+def reference_result(schema, doc, op, provided_variables, world, root=None):
     """Returns ("ok", data, errors, executor) | ("reject-variables", reason) | ("abstain", reason)
     | ("crash", path, executor)."""
     status, coerced = refcoerce.coerce_variables(schema, op.variables, provided_variables)
@@ -148,7 +151,7 @@ def reference_result(schema, doc, op, provided_variables, world):
         return ("abstain", "lenient variable coercion")
     if status == "reject":
         return ("reject-variables", coerced)
-    ex = RefExecutor(schema, doc, op, coerced, world)
+    ex = RefExecutor(schema, doc, op, coerced, world, root=root)
     try:
         data, errors = ex.run()
     except Abstain as e:
